@@ -285,6 +285,11 @@ func (svg *SVGImage) drawMarkers(dst backend.Canvas, vertices []vertex, node *sv
 		)
 		translateX, translateY := dims.point(marker.refX, marker.refY)
 		markerWidth, markerHeight := dims.point(marker.markerWidth, marker.markerHeight)
+		if markerWidth <= 0 || markerHeight <= 0 {
+			// "A value of zero disables rendering of the element."
+			svg.leave(marker)
+			continue
+		}
 		if vb := marker.viewbox; vb != nil {
 			scaleX, scaleY, _, _ = marker.preserveAspectRatio.resolveTransforms(markerWidth, markerHeight, marker.viewbox, &point{translateX, translateY})
 
